@@ -124,6 +124,26 @@ pub fn drain_adv(sim: &mut Sim, env: &mut Env, rng: &mut StdRng, interval: u64, 
             if !env.peers[i].connected {
                 continue;
             }
+            // a whole check point interval of hashes over substituted filters, then those filters (C06)
+            if rng.gen_bool(0.35) {
+                if let Some(quiet) = env.forged_interval_hashes(sim, i, interval) {
+                    env.enforce_bans(sim);
+                    for _ in 0..6 {
+                        if !env.peers[i].connected {
+                            break;
+                        }
+                        env.filter_tick(sim, 0, true);
+                        if !env.forged_filters(sim, i, quiet) {
+                            break;
+                        }
+                        env.enforce_bans(sim);
+                    }
+                    any = true;
+                    if !env.peers[i].connected {
+                        continue;
+                    }
+                }
+            }
             if rng.gen_bool(0.5) {
                 env.mutate_filters(sim, i, rng, with_subst);
             }
